@@ -469,10 +469,28 @@ def corpus():
     return out
 
 
-def programs(rng, n, goals_per=(4, 1, 1)):
+def auto_cycle_programs():
+    """3-struct auto-trait cycles with a failing leaf, in all field orders of the struct that holds the
+    leaf: a goal that reaches an already-solved, still provisional member of the cycle must not be
+    final before the head of the cycle is (the head fails because of the leaf)."""
+    import itertools
+    A = pg.adt
+    out = []
+    fields = [A("NotSend"), A("Label"), A("Edge")]
+    for k, perm in enumerate(itertools.permutations(fields)):
+        p = pg.Prog([pg.Adt("NotSend"), pg.Adt("Node", 0, "struct", [list(perm)]),
+                     pg.Adt("Edge", 0, "struct", [[A("Node")]]), pg.Adt("Label", 0, "struct", [[A("Edge")]])],
+                    [pg.Trait("Send", 0, ("auto",))],
+                    [pg.Impl(0, ("Send", (A("NotSend"),)), [], positive=False)], "seeded-auto-cycle-%d" % k)
+        goals = [("atom", ("Send", (A(x),))) for x in ("Node", "Edge", "Label")]
+        out.append((p, goals))
+    return out
+
+
+def programs(rng, n, goals_per=(4, 1, 1), seeded=False):
     """corpus first, then n generated programs: list of (Prog, text, goals, goal_texts)"""
     out = []
-    for p, goals in corpus():
+    for p, goals in corpus() + (auto_cycle_programs() if seeded else []):
         out.append((p, pg.to_text(p), goals, [pg.goal_text(g) for g in goals]))
     for _ in range(n):
         p = pg.gen_program(rng)
